@@ -396,6 +396,38 @@ func (c *Ctx) racesFor(la *LockAnalysis, memoKey string) *RaceAnalysis {
 							add(gv, "", ins, false, false, "load of global")
 						}
 					}
+				case *ssa.Slice:
+					// a slice of a module global array handed to a call: the callee reads or fills the shared buffer
+					g, ok := x.X.(*ssa.Global)
+					if !ok {
+						continue
+					}
+					gv, ok := g.Object().(*types.Var)
+					if !ok || f.Name() == "init" {
+						continue
+					}
+					for _, ref := range *x.Referrers() {
+						ci, ok := ref.(ssa.CallInstruction)
+						if !ok {
+							continue
+						}
+						name := ""
+						if ci.Common().IsInvoke() {
+							name = ci.Common().Method.Name()
+						} else if obj := p.CalleeObj(ci); obj != nil {
+							name = obj.Name()
+						}
+						readOnly := false
+						for _, pre := range []string{"Write", "Equal", "Compare", "Contains", "Index", "HasPrefix", "HasSuffix", "Sum"} {
+							if strings.HasPrefix(name, pre) {
+								readOnly = true
+							}
+						}
+						if bi, isBi := ci.Common().Value.(*ssa.Builtin); isBi && (bi.Name() == "len" || bi.Name() == "cap") {
+							continue
+						}
+						add(gv, "", ref, !readOnly, false, "global buffer passed to "+name)
+					}
 				case *ssa.MapUpdate:
 					if !rootFresh(x.Map) {
 						add(p.containerRoot(x.Map, 0), "→elems", ins, true, false, "map update")
